@@ -115,13 +115,13 @@ theorem setstateTuple_some {L : Layout} (names : List String) (cache : Bool) (va
 theorem legacy_meets_spec (c : Case) (hwf : wf c = true) (len : Nat) (hop : c.op = .legacy len) :
     spec c (model c) = true := by
   obtain ⟨i0, W⟩ := wf_unpack hwf
-  have I := inv_summarize c.chain
+  have I := inv_summarize (fullChain c)
   obtain ⟨x, hxe, _, _⟩ := history_spec I W c.hashedBefore
   obtain ⟨f, hfe, _, _⟩ := history_spec I W false
-  have hne : ∀ n ∈ (summarize c.chain).names, n ≠ CACHE := fun n hn => mem_names_ne_cache I W.ok hn
+  have hne : ∀ n ∈ (summarize (fullChain c)).names, n ≠ CACHE := fun n hn => mem_names_ne_cache I W.ok hn
   unfold spec model
   simp only [hop, hxe, hfe, gsNames, legacyRun]
-  cases hg : (summarize c.chain).gs with
+  cases hg : (summarize (fullChain c)).gs with
   | dflt => simp
   | user => simp
   | gen names cache own =>
@@ -129,7 +129,7 @@ theorem legacy_meets_spec (c : Case) (hwf : wf c = true) (len : Nat) (hop : c.op
     have hsub := I.gsSub _ _ _ hg
     have hnd := I.gsNodup W.ok _ _ _ hg
     have hcn : CACHE ∉ names := fun h => hne _ (hsub _ h) rfl
-    obtain ⟨y, hy⟩ := setstateTuple_some (L := (summarize c.chain).layout) names cache (legacyVals len)
+    obtain ⟨y, hy⟩ := setstateTuple_some (L := (summarize (fullChain c)).layout) names cache (legacyVals len)
       (fun n hn => writable_of_read (W.allSet n (hsub n hn)))
       (fun hc => by subst hc; exact I.gsCacheW _ _ hg)
     rw [hy]
